@@ -93,7 +93,9 @@ def main():
     if confirmed:
         rc, out = sh(f"git apply {patch}", cwd="/repo")
         if rc != 0:
-            rc, out = sh(f"git apply --3way {patch}", cwd="/repo")
+            print("PATCH DOES NOT APPLY TO /repo (rebase it by hand):", out[-500:])
+            meta["apply_error_repo"] = out[-1000:]
+            checks = []
         try:
             for c in checks:
                 t0 = time.time()
@@ -112,6 +114,9 @@ def main():
                     print(outc[-1500:])
         finally:
             sh("git checkout -- . && git clean -fdq src tests", cwd="/repo")
+            rc_, out_ = sh("git status --porcelain --untracked-files=no", cwd="/repo")
+            if out_.strip():
+                sh("git reset -q --hard HEAD", cwd="/repo")
             # remove replay files written for the seeded violation
         rc, out = sh("git -C /repo status --porcelain --untracked-files=no")
         assert not out.strip(), out
